@@ -27,6 +27,8 @@ PROJECTS = {
                         ('rm.plain', 'from rm import other\n__all__ = ["other"]\n', False), ('rm.other', 'class O:\n    def m(self): pass\n', False)],
     'dups': [('d', 'def f(): pass\ndef f(): pass\nclass K:\n    def meth(self): pass\nclass K:\n    def other(self): pass\n'
                    'class C:\n    def m(self): pass\n    def m(self): pass\n', False)],
+    'dups_deep': [('dd', 'class Outer:\n    class Config:\n        level = 1\n        def validate(self): pass\n        class Inner:\n            x = 1\n'
+                         'class Outer:\n    def other(self): pass\ndef f():\n    pass\nif True:\n    def f():\n        pass\n', False)],
     'dups_nested': [('dn', 'class C:\n    def m(self): pass\n    def m(self): pass\nclass C:\n    def z(self): pass\n', False)],
     'cycle': [('c', '', True), ('c.m1', 'from c.m2 import B\nclass A(B): pass\nclass Base1: pass\n', False),
               ('c.m2', 'from c.m1 import Base1\nclass B(Base1): pass\n', False)],
@@ -131,6 +133,14 @@ def check_model(system):
                     if io is not None and hasattr(io, 'implementedby_directly') and iname in impl and o not in io.implementedby_directly:
                         fails.append({'observed': f'{key} implements {iname} but is not in its implementedby list', 'required': "'implemented by' is the inverse of 'implements'",
                                       'class': 'implements'})
+    # whatever hangs below a registered object (superseded definitions included) is registered under its own qualified name
+    for key, o in list(system.allobjects.items()):
+        for c in o.contents.values():
+            if system.allobjects.get(c.fullName()) is not c:
+                fails.append({'observed': f'{c.fullName()!r} (member of the registered object {key!r}) is not registered under that name',
+                              'required': 'every object is registered under exactly its current qualified name', 'class': 'member-unregistered',
+                              # the listed finding: a duplicate *inside* a duplicate keeps a stale key
+                              'nested_duplicate': bool(re.search(r' \d+$', c.name) and re.search(r' \d+(\.|$)', key))})
     # reachability through contents, for everything that is not superseded
     reach = set()
 
